@@ -30,6 +30,9 @@ type checker struct {
 	shapeEnv   *shapeEnv
 	shapeCases []shapeCase
 
+	// multiSrc: an element may legitimately combine several source arrays at the same index (ELEM-1 of C03)
+	multiSrc bool
+
 	axisCtlBad  int
 	axisCtlGood bool
 	// statistics
